@@ -389,7 +389,11 @@ def main(argv):
     if violations:
         rc = 1
         # prefer a violation with a concrete failing input
-        violations.sort(key=lambda v: (not v[3], {"PROP-FAIL": 0, "MODEL-DIFF": 1}.get(v[0], 2)))
+        # … and among those the shortest case line (cheap minimisation: generators emit many sizes)
+        def vkey(v):
+            line = pv["cases"].get(v[1], "") if pv else ""
+            return (not v[3], {"PROP-FAIL": 0, "MODEL-DIFF": 1}.get(v[0], 2), len(line) if line else 1 << 30)
+        violations.sort(key=vkey)
         kind, cid, detail, found = violations[0]
         os.makedirs(os.path.join(VERIF, "replays"), exist_ok=True)
         replay_path = os.path.join(VERIF, "replays", "%s%s-%s-%d.json" % (pid, ("-" + ALT) if ALT else "", tier, seed))
